@@ -1,6 +1,7 @@
 import Driver.Nat
 import StrandModel.Model.Shuffle
 import StrandModel.Model.Generators
+import StrandModel.Model.Rng
 /- Dispatcher, part 2: shuffle, generators, vector codecs. -/
 namespace Strand.Driver
 open Strand Strand.Proto
@@ -76,6 +77,15 @@ def runNatShuffle (P : Params) (fl : Flavour) (op : String) (args : List Val) : 
     | _, _, _, _, _ => .badOp op
   | "gens", [.nat size, .bytes seed] => match generators P fl size seed with
     | some gs => .ok (vNats gs) | none => .panic
+  | "rnd_exp", [.bytes y] => match bigintRndExp P y with
+    | some (x, rest) => .ok (.list [.nat x, .nat (y.length - rest.length)]) | none => .panic
+  | "rnd_pt", [.bytes y] => match bigintRndPlaintext P y with
+    | some (x, rest) => .ok (.list [.nat x, .nat (y.length - rest.length)]) | none => .panic
+  | "rnd_elem", [.bytes y] => match bigintRnd P y with
+    | some (some e, rest) => .ok (.list [.nat e, .nat (y.length - rest.length)])
+    | _ => .panic
+  | "perm", [.nat n, .bytes y] => match fisherYates n y with
+    | some (pm, rest) => .ok (.list [vNats pm, .nat (y.length - rest.length)]) | none => .panic
   | "h2e", [.bytes b] => okNat (natHashToElement P fl b)
   | "ser_proof", [pf] => match gProof pf with
     | some pf => .ok (.bytes ((codecShuffleProof o).enc pf)) | none => .badOp op
